@@ -79,3 +79,4 @@ def module_ident(ctx, P):
     _ensure(ctx, P + "/mem-file-siblings", lambda n: c14.rule_mem_file_siblings(ctx, R=n))
     _ensure(ctx, P + "/strtab-window", lambda n: c14.rule_strtab_window(ctx, R=n))
     _ensure(ctx, P + "/header-context", lambda n: c14.rule_header_context(ctx, R=n))
+    _ensure(ctx, P + "/note-walk", lambda n: c14.rule_note_walk(ctx, R=n))
